@@ -1685,13 +1685,13 @@ def run(ctx):
     ctx.finish(level="proof", rule=PROP_RULE, trusted_base=TRUSTED, assumptions=ASSUME,
                extra={"partial": [
                    "C16_roundtrip_partial: the round trip `parse (print cst) = tree cst` (any layout, comments, keyword case) is proved for triples statements "
-                   "with `;` / `,` lists, FILTER expressions (|| && ! comparisons, function calls, arithmetic with parentheses), GRAPH, UNION chains, sub-selects, "
-                   "optional `.`, nested group patterns, SELECT with DISTINCT / projection / aggregates / FROM / FROM NAMED / GROUP BY / ORDER BY / LIMIT and the whole "
-                   "request up to end of input (C16_roundtrip_statement .. C16_roundtrip_query). NOT proved, checked by the tree and follower streams only: "
-                   "parenthesised boolean sub-expressions in FILTER, BIND, VALUES, the PREFIX prologue in front of the proved request, the six update forms, "
-                   "exponent numbers, literals with @lang / ^^datatype, long strings, quoted triples as terms",
+                   "with `;` / `,` lists, FILTER expressions (|| && ! parentheses, comparisons, function calls, arithmetic), BIND, VALUES, GRAPH, UNION chains, "
+                   "sub-selects, optional `.`, nested group patterns, SELECT with DISTINCT / projection / aggregates / FROM / FROM NAMED / GROUP BY / ORDER BY / LIMIT, "
+                   "the PREFIX prologue and the whole request up to end of input, with the fuel of Run.v (C16_roundtrip_statement .. C16_roundtrip_query_default_fuel). "
+                   "NOT proved, checked by the tree and follower streams only: a parenthesised boolean FILTER expression that starts with a function call, "
+                   "the six update forms, exponent numbers, literals with @lang / ^^datatype, long strings, quoted triples and bare identifiers as terms",
                    "extension grammars (RULE, REGISTER/RSP-QL, ML.PREDICT, MODEL / NEURAL RELATION, legacy parse_where): not modelled, totality exercised by the mutant stream only",
-                   "fuel adequacy of the grammar model (parse_top never answers Fuel with the fuel of Run.v) is observed, not proved; the round-trip theorems take an explicit bound sz_* cst <= fuel",
+                   "fuel adequacy of the grammar model on ARBITRARY input (parse_top never answers Fuel with the fuel of Run.v) is observed, not proved; for printed requests it is the theorem C16_roundtrip_query_default_fuel",
                    "panic-freedom of the real code is a runtime fact tied to the model by the correspondence check only"]})
 
 
